@@ -31,6 +31,25 @@ def plain_record_construction(P: Project, f: FuncInfo, c: ast.Call) -> bool:
     return all(k.arg in fields for k in c.keywords)
 
 
+def class_mapping_attrs(P: Project, cls) -> set:
+    """Attributes of `cls` that hold a dict for the object's whole life: every store to `self.<a>` in the class's methods
+    binds a dict display / dict() (annotated or not)."""
+    stores: Dict[str, list] = {}
+    for m in P.methods(cls).values():
+        for n in ast.walk(m.node):
+            tg = val = None
+            if isinstance(n, ast.Assign):
+                tg, val = n.targets, n.value
+            elif isinstance(n, ast.AnnAssign):
+                tg, val = [n.target], n.value
+            elif isinstance(n, ast.AugAssign):
+                tg, val = [n.target], None
+            for t in tg or []:
+                if isinstance(t, ast.Attribute) and isinstance(t.value, ast.Name) and t.value.id == "self":
+                    stores.setdefault(t.attr, []).append(val)
+    return {a for a, vs in stores.items() if vs and all(isinstance(v, ast.Dict) or (isinstance(v, ast.Call) and isinstance(v.func, ast.Name) and v.func.id == "dict" and not v.args) for v in vs)}
+
+
 def contained(P: Project, f: FuncInfo, depth: int = 0) -> bool:
     """True iff no Exception can leave `f` under the model 'every call/await may
     raise except logging-like calls and calls of functions that are themselves
@@ -44,12 +63,19 @@ def contained(P: Project, f: FuncInfo, depth: int = 0) -> bool:
     maps = mapping_names(f.node)
 
     lists = list_names(f.node)
+    self_maps = class_mapping_attrs(P, f.cls) if f.cls is not None else set()
+
+    def is_self_mapping_get(c) -> bool:
+        # `self.sessions.get(sid, DEFAULT)` on an attribute that only ever holds a dict: as total as `sid in self.sessions`
+        fn_ = c.func
+        return (isinstance(fn_, ast.Attribute) and fn_.attr == "get" and isinstance(fn_.value, ast.Attribute) and isinstance(fn_.value.value, ast.Name) and fn_.value.value.id == "self"
+                and fn_.value.attr in self_maps and 1 <= len(c.args) <= 2 and not c.keywords and all(isinstance(a, (ast.Constant, ast.Name)) for a in c.args))
 
     def pred(node, st: PState, an: PathAnalysis):
         hv = tuple(h.name for h in an.handler_stack if h.name)
         truthy = {n_ for n_ in lists if (st.term(n_) or n_) in st.lits or n_ in st.lits} if lists else ()
         for c in calls_in_order(node):
-            if is_benign_call(c, hv) or is_mapping_get(c, maps) or (lists and is_list_total(c, lists, truthy)) or is_sequence_op(c, st) or is_mapping_get_here(c, st) or plain_record_construction(P, f, c):
+            if is_benign_call(c, hv) or is_mapping_get(c, maps) or is_self_mapping_get(c) or (lists and is_list_total(c, lists, truthy)) or is_sequence_op(c, st) or is_mapping_get_here(c, st) or plain_record_construction(P, f, c):
                 continue
             if depth < 3:
                 g = P.resolve_call(f, c)
